@@ -384,7 +384,8 @@ func dumpGrid(g mdTable) string {
 
 // judgeList: the line-syntactic reading. Every item is exactly one line "indent marker text";
 // the items' lines appear in source order; marker class = kind; indentation is a strictly
-// monotone function of depth (equal depth <=> equal indentation, deeper => more).
+// monotone function of depth (equal depth <=> equal indentation, deeper => at least two more
+// columns per level).
 func judgeList(l *List, lines []string, p *parsed, info map[string]int64) *failure {
 	type hit struct {
 		line, indent int
@@ -427,6 +428,11 @@ func judgeList(l *List, lines []string, p *parsed, info map[string]int64) *failu
 			di, dj := l.Items[i].Depth, l.Items[j].Depth
 			if (di == dj && hits[i].indent != hits[j].indent) || (di < dj && hits[i].indent >= hits[j].indent) {
 				return failf("list-indent", "items %d (depth %d, indent %d) and %d (depth %d, indent %d): indentation is not a strictly monotone function of depth", i+1, di, hits[i].indent, j+1, dj, hits[j].indent)
+			}
+			// the narrowest list marker ("- ") is two columns wide: an item indented by less than two
+			// columns per level cannot be nested under its parent in any Markdown dialect
+			if di < dj && hits[j].indent-hits[i].indent < 2*(dj-di) {
+				return failf("list-indent", "items %d (depth %d, indent %d) and %d (depth %d, indent %d): less than two columns of indentation per level", i+1, di, hits[i].indent, j+1, dj, hits[j].indent)
 			}
 		}
 	}
